@@ -26,7 +26,12 @@ type family struct {
 	// wrap, if set, turns the (mutated) root into the bytes the "wrapped" entries take
 	wrap           func(m proto.Message) proto.Message
 	wrappedEntries []string
-	opts           enumOpts
+	// native: the entries of the view the seed was encoded for; value-level mutations (bytes,
+	// numbers) go to these only, structural ones (fields / elements added or removed) to all
+	native []string
+	// deep: always run the expensive post-decode steps (otherwise only below aux_pow)
+	deep bool
+	opts enumOpts
 }
 
 func mustEnc[T proto.Message](t *rapid.T, m T, err error) T {
@@ -66,7 +71,8 @@ func wrapView(m proto.Message) proto.Message {
 	return &types.ProtoWorkObjectBlockView{WorkObject: m.(*types.ProtoWorkObject)}
 }
 
-var woRawEntries = []string{"WorkObject.ProtoDecode/Block", "WorkObject.ProtoDecode/Header", "WorkObject.ProtoDecode/PEtx", "WorkObject.ProtoDecode/WorkShare", "WorkObject.ProtoDecode/WorkShareTx"}
+// the Block, Header and WorkShareTx views are reached through pb.UnmarshalAndConvert (same decoder)
+var woRawEntries = []string{"WorkObject.ProtoDecode/PEtx", "WorkObject.ProtoDecode/WorkShare"}
 var woViewEntries = []string{"pb.UnmarshalAndConvert/BlockView", "pb.UnmarshalAndConvert/HeaderView", "pb.UnmarshalAndConvert/ShareView"}
 
 func families() []family {
@@ -75,18 +81,18 @@ func families() []family {
 			wo := genWo(t, g)
 			p, err := wo.ProtoEncode(types.BlockObject)
 			return mustEnc(t, p, err)
-		}, entries: woRawEntries, wrap: wrapView, wrappedEntries: woViewEntries, opts: enumOpts{addAbsent: true}},
+		}, entries: woRawEntries, wrap: wrapView, wrappedEntries: woViewEntries, native: []string{"pb.UnmarshalAndConvert/BlockView"}, opts: enumOpts{addAbsent: true}},
 		{name: "wo/share", seed: func(t *rapid.T, g *gen.Tags) proto.Message {
 			wo := genWo(t, g)
 			sv := wo.ConvertToWorkObjectShareView(wo.Transactions())
 			p, err := sv.WorkObject.ProtoEncode(types.WorkShareTxObject)
 			return mustEnc(t, p, err)
-		}, entries: woRawEntries, wrap: wrapView, wrappedEntries: woViewEntries, opts: enumOpts{addAbsent: true}},
+		}, entries: woRawEntries, wrap: wrapView, wrappedEntries: woViewEntries, native: []string{"pb.UnmarshalAndConvert/ShareView"}, opts: enumOpts{addAbsent: true}},
 		{name: "wo/petx", seed: func(t *rapid.T, g *gen.Tags) proto.Message {
 			wo := genWo(t, g)
 			p, err := wo.ConvertToPEtxView().ProtoEncode(types.PEtxObject)
 			return mustEnc(t, p, err)
-		}, entries: woRawEntries, wrap: wrapView, wrappedEntries: woViewEntries, opts: enumOpts{addAbsent: true}},
+		}, entries: woRawEntries, wrap: wrapView, wrappedEntries: woViewEntries, native: []string{"WorkObject.ProtoDecode/PEtx"}, opts: enumOpts{addAbsent: true}},
 		{name: "tx", seed: func(t *rapid.T, g *gen.Tags) proto.Message {
 			var tx *types.Transaction
 			if rapid.IntRange(0, 3).Draw(t, "qi_special") == 0 {
@@ -96,22 +102,22 @@ func families() []family {
 			}
 			p, err := tx.ProtoEncode()
 			return mustEnc(t, p, err)
-		}, entries: []string{"Transaction.ProtoDecode"}, opts: enumOpts{addAbsent: true, big: true}},
+		}, entries: []string{"Transaction.ProtoDecode"}, deep: true, opts: enumOpts{addAbsent: true, big: true}},
 		{name: "woheader", seed: func(t *rapid.T, g *gen.Tags) proto.Message {
 			wh := gen.WorkObjectHeader(t, "wh", zoneLoc, gen.WoOpts{Regime: gen.AnyRegime, AuxPow: -1}, g)
 			p, err := wh.ProtoEncode()
 			return mustEnc(t, p, err)
-		}, entries: []string{"WorkObjectHeader.ProtoDecode"}, opts: enumOpts{addAbsent: true, big: true}},
+		}, entries: []string{"WorkObjectHeader.ProtoDecode"}, deep: true, opts: enumOpts{addAbsent: true, big: true}},
 		{name: "header", seed: func(t *rapid.T, g *gen.Tags) proto.Message {
 			p, err := gen.Header(t, g).ProtoEncode()
 			return mustEnc(t, p, err)
 		}, entries: []string{"Header.ProtoDecode"}, opts: enumOpts{addAbsent: true}},
 		{name: "auxpow", seed: func(t *rapid.T, g *gen.Tags) proto.Message {
 			return gen.AuxPow(t, "ap", g).ProtoEncode()
-		}, entries: []string{"AuxPow.ProtoDecode"}, opts: enumOpts{addAbsent: true, big: true}},
+		}, entries: []string{"AuxPow.ProtoDecode"}, deep: true, opts: enumOpts{addAbsent: true, big: true}},
 		{name: "auxtemplate", seed: func(t *rapid.T, g *gen.Tags) proto.Message {
 			return gen.AuxTemplate(t, "at", g).ProtoEncode()
-		}, entries: []string{"AuxTemplate.ProtoDecode", "pb.UnmarshalAndConvert/AuxTemplate"}, opts: enumOpts{addAbsent: true, big: true}},
+		}, entries: []string{"AuxTemplate.ProtoDecode", "pb.UnmarshalAndConvert/AuxTemplate"}, deep: true, opts: enumOpts{addAbsent: true, big: true}},
 		{name: "quaimsg/request", seed: func(t *rapid.T, g *gen.Tags) proto.Message {
 			r := gen.Request(t, g)
 			b, err := pb.EncodeQuaiRequest(r.ID, r.Loc, r.Data, r.RespType)
@@ -162,8 +168,8 @@ func drawFamily(t *rapid.T, fams []family) *family {
 
 var stageLabel = [...]string{"rejected:wire", "rejected:decoder", "decoded"}
 
-// feed drives every entry of the family with one (mutated) message and records the case.
-func feed(t stats.TB, part string, ents map[string]entry, f *family, m proto.Message, how, sig string, tags []string) {
+// feed drives the entries of the family with one (mutated) message and records the cases.
+func feed(t stats.TB, part string, ents map[string]entry, f *family, m proto.Message, all, deep bool, how, sig string, tags []string) {
 	raw, err := proto.Marshal(m)
 	if err != nil {
 		return // e.g. invalid UTF-8 in a string field: cannot be put on the wire by this encoder
@@ -172,7 +178,23 @@ func feed(t stats.TB, part string, ents map[string]entry, f *family, m proto.Mes
 	if f.wrap != nil {
 		wrapped, _ = proto.Marshal(f.wrap(m))
 	}
+	deepPoke = deep || f.deep
+	defer func() { deepPoke = true }()
+	isNative := func(name string) bool {
+		if all || len(f.native) == 0 {
+			return true
+		}
+		for _, n := range f.native {
+			if n == name {
+				return true
+			}
+		}
+		return false
+	}
 	run := func(name string, b []byte) {
+		if !isNative(name) {
+			return
+		}
 		e := ents[name]
 		p := &probe{part: part, entry: name, input: b, note: how}
 		stage := 0
@@ -189,6 +211,10 @@ func feed(t stats.TB, part string, ents map[string]entry, f *family, m proto.Mes
 	for _, name := range f.wrappedEntries {
 		run(name, wrapped)
 	}
+}
+
+func structural(op string) bool {
+	return op == "nil" || op == "empty" || op == "absent->empty" || op == "clear" || strings.HasPrefix(op, "list-")
 }
 
 func opClass(op string) string {
@@ -215,10 +241,11 @@ func TestC15A_ProtoStruct(t *testing.T) {
 			o.big = false
 		}
 		// the unmutated tree first: a valid object must decode (harness sanity) and not crash
-		feed(rt, "proto_struct", ents, f, root, "valid "+f.name, "valid", []string{"op:none"})
+		feed(rt, "proto_struct", ents, f, root, true, true, "valid "+f.name, "valid", []string{"op:none"})
 		muts := enumerate(root, o)
 		for _, mu := range muts {
-			feed(rt, "proto_struct", ents, f, mutate(root, mu), f.name+" "+mu.String(), mu.sig(), []string{opClass(mu.op)})
+			ps := mu.pathString(false)
+			feed(rt, "proto_struct", ents, f, mutate(root, mu), structural(mu.op), strings.Contains(ps, "aux_pow"), f.name+" "+mu.String(), mu.sig(), []string{opClass(mu.op)})
 		}
 		if stats.Thorough() {
 			nils := nilMutations(muts)
@@ -229,7 +256,7 @@ func TestC15A_ProtoStruct(t *testing.T) {
 						continue
 					}
 					budget--
-					feed(rt, "proto_struct", ents, f, mutate(root, nils[i], nils[j]),
+					feed(rt, "proto_struct", ents, f, mutate(root, nils[i], nils[j]), true, false,
 						fmt.Sprintf("%s %s + %s", f.name, nils[i], nils[j]), nils[i].sig()+"+"+nils[j].sig(), []string{"op:pair-nil"})
 				}
 			}
